@@ -481,19 +481,21 @@ static inline void note_both_dir(CallSlot* other, uint64_t other_seq_before, boo
         c_both_dir.add();
 }
 
-// After a call with a finite stream timeout the calling thread must not be left with a pending "event arrived"
-// wake-up code: the next sleep of this thread that ends by timeout would report it, i.e. the next wait_for_fd()
-// would return 0 at its timeout without removing its interest (a lost timeout; with epoll-ng the abandoned
-// registration points to a dead stack object). Nobody can legitimately send EOK to this thread here: it has
-// no interest registered, so a 1 us sleep that comes back "interrupted by EOK" carried the code in.
+// After a call with a finite stream timeout the calling thread must neither be left with a pending "event
+// arrived" wake-up code nor with an interest still registered: either one makes a later, unrelated sleep of
+// this thread end as "event arrived" (the next wait_for_fd() would return 0 at its timeout without removing its
+// interest: a lost timeout; with epoll-ng the abandoned registration points to a dead stack object). Nobody can
+// legitimately send EOK to this thread here, since it waits for no descriptor: a 1 us sleep that comes back
+// "interrupted by EOK" proves a wake-up that belongs to a finished wait.
 static void probe_stale_code(const Dir& D, const char* op, ssize_t ret, int e) {
     errno = 0;
     int r = thread_usleep(1);
     if (r < 0 && errno == EOK) {
         c_stale_code.add();
         vh::violation("wakeup/stale-event-code-left-by-timed-call",
-                      "a stream call with a timeout returned leaving an unconsumed event wake-up (EOK) pending on the calling thread; "
-                      "the thread's next sleep that ends by timeout reports 'event arrived' (wait_for_fd returns 0 at the timeout, interest not removed)",
+                      "after a stream call with a timeout returned, an event wake-up (EOK) reached the calling thread in an unrelated 1 us sleep although "
+                      "it waits for no descriptor: a wake-up code left pending or an interest left registered by the finished call "
+                      "(a later wait_for_fd of this thread would return 0 at its timeout)",
                       dir_witness(D).kv("op", op).kv("returned", (int64_t)ret).kv("errno", e).str());
     }
 }
@@ -926,6 +928,12 @@ static bool on_stuck(std::string& key, std::string& what, std::string& wit) {
             if (k >= 0) {
                 uint64_t n = D.rcall.n.load(), base = D.rcall.base.load(), dl = D.rcall.deadline_rt.load();
                 uint64_t wd = D.w_done.load();
+                if (G.shim_live.load()) {
+                    // bytes the kernel accepted from the writer (also those of a write call still in progress)
+                    int wfd = D.ws->fd.load();
+                    uint64_t hs = d == 0 ? 8 : 0;
+                    if (wfd >= 0 && shim::g_fd[wfd].tx.load() >= hs) wd = std::max<uint64_t>(wd, shim::g_fd[wfd].tx.load() - hs);
+                }
                 int closed = D.w_closed.load();
                 int rfd = D.rs->fd.load();
                 int rev = kernel_ready(rfd, POLLIN | POLLRDHUP);
@@ -935,7 +943,8 @@ static bool on_stuck(std::string& key, std::string& what, std::string& wit) {
                 bool must_return = closed || (full ? wd >= base + n : (wd > base && n > 0)) || n == 0;
                 auto o = dir_witness(D);
                 o.kv("blocked", std::string("reader in ") + rop_name[k]).kv("requested", n).kv("offset_at_call", base)
-                    .kv("timed", dl != 0).kv("kernel_revents", rev).kv("kernel_inq", inq).kv("blocked_for_us", rt - D.rcall.since_rt.load());
+                    .kv("timed", dl != 0).kv("kernel_revents", rev).kv("kernel_inq", inq).kv("kernel_accepted_from_writer", wd)
+                    .kv("blocked_for_us", rt - D.rcall.since_rt.load());
                 blocked.raw(o.str());
                 if (!proved && dl == 0 && must_return && rev > 0 && (rev & (POLLIN | POLLHUP | POLLRDHUP | POLLERR))) {
                     proved = true;
@@ -1035,15 +1044,18 @@ int main(int argc, char** argv) {
     G.nconn = A.geti("conns", r.pick({1, 2, 3, 6, 12, 20, 28, 40}));
     G.inject = A.geti("shim", r.chance(2, 3));
     G.handler_mode = r.chance(1, 3);
+    // start_loop() creates every handler thread with the default 8 MB stack before the first handler runs; under a
+    // sanitizer each such allocation is slow on a loaded machine (a long silent start-up, nothing to do with C10)
+    if (G.handler_mode && (vh::is_asan() || vh::is_tsan())) G.nconn = std::min(G.nconn, 12);
     shim::den_short = r.pick({3u, 6u, 12u});
     shim::den_eintr = r.pick({8u, 24u, 64u});
     shim::den_eagain = r.pick({8u, 24u, 64u});
     bool tick_all = G.nconn >= 12 && r.chance(1, 2);        // synchronised writers: many descriptors ready at once
-    uint64_t budget = A.geti("bytes", A.thorough() ? 6000000 : 1200000);   // bytes per execution, all directions together
+    uint64_t budget = A.geti("bytes", A.thorough() ? 3000000 : 1200000);   // bytes per execution, all directions together
     budget /= A.shape_div();
     if (vh::is_tsan()) budget /= 4;
     if (!vh::is_asan() && !vh::is_tsan()) budget *= 2;
-    uint64_t max_ops = A.geti("ops", A.thorough() ? 1200 : 240);
+    uint64_t max_ops = A.geti("ops", A.thorough() ? 720 : 240);
     // confined to one or two cores every sleep-paced call costs the same wall time: fewer calls and connections
     if (A.shape_div() >= 10) { max_ops /= 4; G.nconn = std::min(G.nconn, 20); }
     else if (A.shape_div() >= 4) max_ops /= 2;
@@ -1055,7 +1067,7 @@ int main(int argc, char** argv) {
     unlink(G.uds_path.c_str());
 
     // ---- per-connection plans
-    uint64_t per_dir = std::min<uint64_t>(std::max<uint64_t>(budget / (2 * G.nconn), 2000), A.thorough() ? 400000 : 100000);
+    uint64_t per_dir = std::min<uint64_t>(std::max<uint64_t>(budget / (2 * G.nconn), 2000), A.thorough() ? 300000 : 100000);
     for (int i = 0; i < G.nconn; ++i) {
         auto c = new Conn;
         c->id = i;
